@@ -257,7 +257,7 @@ PROPS = {
               # Redis backend: the polling waiter, every GET of every waiter parked and released one at a time
               dict(comp="rediswait", driver="rediswait",
                    decisive=lambda d: d["op"].startswith("mon C07") or d["op"].startswith("ret ") or d["op"].startswith("poll ") or d["op"].startswith("wake "))],
-        rule="cases = scripts on the REAL in-memory storage with 1..3 waiter goroutines on 1..2 keys: a prefix of writes (some with a 12 ms expiry), waiters started with the current / a stale / a never-issued version, then 3..9 actions from {start waiter, cancel waiter i, Put, Put with expiry, Create, CasByVersion with the current or a stale version, Delete, let the record expire}; after each action the harness waits until every waiter has returned or is parked in its select (goroutine-stack inspection); every critical section of inmem.go (announced by the instrumented lock, attributed to its goroutine, with the waiter table as seen under the lock) becomes a trace event and the Lean driver replays the trace through Waiters.Exec, comparing the waiter table after every section and every waiter's verdict; leftover waiters are cancelled at the end and the table must be empty; non-trivial = a mutation or cancellation hit a key on which waiters were parked; distinct by hash of the event list. Redis backend (component rediswait): 1..3 waiter goroutines call the REAL polling WaitForVersionChange against miniredis; a go-redis hook parks every GET of a waiter; the scheduler interleaves complete writer operations (Put / Create / CasByVersion current or stale / Delete, some with expiries), even clock ticks (odd expiries), cancellations and the release of one parked GET at a time (10 directed scripts + 150 (2000) random ones of 8..30 actions); every reply and verdict is replayed through Model/RedisWait by the Lean driver; a free-running phase checks in real time that an unchanged record keeps the waiter blocked (150 ms) and that a Put / Delete / cancellation ends the wait with the right verdict",
+        rule="cases = scripts on the REAL in-memory storage with 1..3 waiter goroutines on 1..2 keys: a prefix of writes (some with a 12 ms expiry), waiters started with the current / a stale / a never-issued version, then 3..9 actions from {start waiter, cancel waiter i, Put, Put with expiry, Create, CasByVersion with the current or a stale version, Delete, let the record expire}; after each action the harness waits until every waiter has returned or is parked in its select (goroutine-stack inspection); every critical section of inmem.go (announced by the instrumented lock, attributed to its goroutine, with the waiter table as seen under the lock) becomes a trace event and the Lean driver replays the trace through Waiters.Exec, comparing the waiter table after every section and every waiter's verdict; leftover waiters are cancelled at the end and the table must be empty; non-trivial = a mutation or cancellation hit a key on which waiters were parked; distinct by hash of the event list. Redis backend (component rediswait): 1..3 waiter goroutines call the REAL polling WaitForVersionChange against miniredis; a go-redis hook parks every GET of a waiter; the scheduler interleaves complete writer operations (Put / Create / CasByVersion current or stale / Delete, some with expiries), even clock ticks (odd expiries), cancellations and the release of one parked GET at a time (11 directed scripts + 150 (2000) random ones of 8..30 actions; the sleep between two polls of an unchanged record must stay below 500 ms); every reply and verdict is replayed through Model/RedisWait by the Lean driver; a free-running phase checks in real time that an unchanged record keeps the waiter blocked (1.2 s) and that a Put / Delete / cancellation then ends the wait within 500 ms with the right verdict",
         assumptions=["Redis backend: the length of a sleep between two polls (2..64 ms in the code) is not modelled — the theorem is 'returns at the FIRST poll after the change'; real-time promptness is sampled by the free-running phase", "promptness is measured by the settle deadline (10 s), not proved"],
         trusted=["modelled, not verified: Go select / channel close semantics, sync.Mutex; the textual instrumenter announces every lock/unlock site of the CURRENT inmem.go with its function name and ordinal (WaitForVersionChange#1 = check, #2 = ctx.Done path, #3 = expiry path)", "C07Exec.handle_sound / replay_reach: every accepted trace is a Waiters.Step execution"],
         explanation="C07.return_sound, no_lost_wakeup, table_exact, no_bookkeeping_left, cancel_isolated, wake_enabled for any number of waiters/keys/writers and every interleaving of the critical sections (in-memory backend); C07Redis (polling waiter of kvs/redis over the timed contract, any number of waiters, arbitrary writers, ticks, cancellations): verdict_sound / poll_complete (nil only on a visible other version, ErrNotExist only on absence, the context's error only with a done context), sleeping_means_unchanged, change_is_permanent (versions are never reused, expiry only removes: once a return condition holds it holds for ever), returns_at_first_poll_after_change, cancelled_returns, waiters_read_only / cancel_isolated / server_oblivious_to_waiters (no bookkeeping exists: the server's state equals that of the run without any waiter event)",
